@@ -483,8 +483,6 @@ Section Add.
     - eapply w_lc_sget; eauto.
   Qed.
 
-  Definition tip_id (l : list blk) : N := match l with [] => 0 | t :: _ => b_id t end.
-  Definition tip_hash (l : list blk) : N := match l with [] => 0 | t :: _ => b_hash t end.
 
   (* ---------------- the decision and its execution ---------------- *)
   Lemma add_finish_ok st2 b newtl oldb common :
@@ -496,6 +494,8 @@ Section Add.
     linked_dn U (b :: newtl) common ->
     ((common <> [] /\ get_block st2 (b_prev b) <> None) \/ (common = [] /\ oldb = [] /\ newtl = [])) ->
     (forall h sb, get_block st2 h = Some sb -> b_prev (s_b sb) <> b_hash b) ->
+    last_id st2 = tip_id (oldb ++ common) -> last_hash st2 = tip_hash (oldb ++ common) ->
+    (ring_empty st2 = true -> oldb ++ common = []) ->
     let lg := longest_spec (ring_empty st2) (tip_id (oldb ++ common)) b (b :: newtl) oldb in
     let gv := gt_count_valid st2 (b_prev b) (b_gt b) && forallb b_valid (b :: newtl) in
     exists st' r, add_finish c b st2 (hashes (b :: newtl)) (hashes oldb) = Ok (st', r)
@@ -506,9 +506,10 @@ Section Add.
                     if (h =? b_hash b) && lg && negb gv then None else sget (blocks st2) h)
       /\ (if lg then wsteps st' <= 2 * (Nlen (hashes (b :: newtl)) + Nlen (hashes oldb))
           else wsteps st' = wsteps st2)
-      /\ last_id st2 <= last_id st' /\ (lg && gv = true -> b_id b <= last_id st').
+      /\ last_id st' = tip_id (if lg && gv then (b :: newtl) ++ common else oldb ++ common)
+      /\ last_hash st' = tip_hash (if lg && gv then (b :: newtl) ++ common else oldb ++ common).
   Proof.
-    intros W Hb G Hx Hst Hl Hcm Hnc lg gv.
+    intros W Hb G Hx Hst Hl Hcm Hnc Hla1 Hla2 Hre lg gv.
     unfold add_finish. rewrite (latest_id_spec _ _ _ W). cbn [bind]. fold (tip_id (oldb ++ common)).
     rewrite (longest_eq st2 b newtl oldb (tip_id (oldb ++ common))); auto.
     2:{ intros y Hy. eapply w_lc_sget; [exact W|]. apply in_app_iff. now left. }
@@ -521,6 +522,12 @@ Section Add.
       replace (0 - gp_of c <? b_id b) with true by (symmetry; apply N.ltb_lt; lia).
       replace (b_id b <=? 0) with false by (symmetry; apply N.leb_gt; lia).
       cbn. replace (0 <=? 0 + b_bf b) with true by (symmetry; apply N.leb_le; lia). now rewrite orb_true_r. }
+    assert (Hlt : lg = true -> tip_id (oldb ++ common) < b_id b).
+    { unfold lg, longest_spec. intros H. apply andb_true_iff in H as [_ H].
+      destruct (ring_empty st2).
+      - rewrite (Hre eq_refl). cbn [tip_id]. pose proof (u_id _ _ HU b Hb). lia.
+      - cbn [orb] in H. apply andb_true_iff in H as [H _]. apply andb_true_iff in H as [H _].
+        now apply negb_true_iff, N.leb_gt in H. }
     destruct lg eqn:Elg.
     - (* longest: flag, validate *)
       set (st5 := set_lc_flag (set_not_empty st2) (b_hash b) true).
@@ -530,7 +537,7 @@ Section Add.
       { eapply (reflag_inv st2 st5 _ _ b false true W G Hx); rewrite E5; reflexivity. }
       assert (S5 : same_store (blocks st2) (blocks st5)).
       { rewrite E5. cbn [set_blocks blocks]. apply (same_store_flag _ _ _ true G). }
-      destruct (validate_ok c U HU HWF st5 b newtl oldb common (b_hash b) W5) as (st6 & ok & Ev & S6 & R6 & Eok & W6 & L6 & Lb6).
+      destruct (validate_ok c U HU HWF st5 b newtl oldb common (b_hash b) W5) as (st6 & ok & Ev & S6 & R6 & Eok & W6 & La6 & Lb6).
       { intros y Hy. rewrite <- S5. now apply Hst. }
       { exact Hl. }
       { destruct Hcm as [[? _]|(_ & ? & ?)]; auto. }
@@ -538,14 +545,15 @@ Section Add.
       rewrite <- (gt_count_valid_same st2 st5 _ _ S5) in Eok. fold gv in Eok. subst ok.
       assert (R5 : ring_empty st5 = false) by (rewrite E5; reflexivity).
       assert (L5 : last_id st5 = last_id st2) by (rewrite E5; reflexivity).
+      assert (H5 : last_hash st5 = last_hash st2) by (rewrite E5; reflexivity).
       destruct gv eqn:Egv.
       + exists st6, OnChain. split; [reflexivity|]. split; [congruence|]. split; [reflexivity|].
         cbn [andb negb]. split; [|split; [|split; [|split]]].
         * eapply WInv_drop_on; [exact W6|]. cbn [app hashes map]. now left.
         * intros h. rewrite andb_false_r. rewrite <- S6. now rewrite <- S5.
         * apply (validate_steps _ _ _ _ _ _ Ev).
-        * lia.
-        * intros _. now apply Lb6.
+        * cbn [app tip_id]. apply La6; [reflexivity|]. rewrite L5, Hla1. now apply Hlt.
+        * cbn [app tip_hash]. apply La6; [reflexivity|]. rewrite L5, Hla1. now apply Hlt.
       + assert (G6 : exists f6, get_block st6 (b_hash b) = Some (mkSB b f6)).
         { apply sget_get. rewrite <- S6, <- S5. apply (get_sget _ _ _ G). }
         destruct G6 as (f6 & G6).
@@ -559,10 +567,10 @@ Section Add.
         * intros h. rewrite sget_failed by apply (w_store _ _ _ _ _ W6).
           rewrite andb_true_r. destruct (h =? b_hash b); [reflexivity|]. rewrite <- S6. now rewrite <- S5.
         * cbn [failed wsteps]. apply (validate_steps _ _ _ _ _ _ Ev).
-        * cbn [failed last_id]. lia.
-        * discriminate.
+        * cbn [failed last_id]. destruct (Lb6 eq_refl) as [[F1 _]|[F1 _]]; congruence.
+        * cbn [failed last_hash]. destruct (Lb6 eq_refl) as [[_ F2]|[_ F2]]; congruence.
     - exists (set_not_empty st2), OffChain. split; [reflexivity|]. split; [reflexivity|].
-      split; [reflexivity|]. cbn [andb]. split; [|split; [|split; [reflexivity|split; [cbn; lia|discriminate]]]].
+      split; [reflexivity|]. cbn [andb]. split; [|split; [|split; [reflexivity|split; [exact Hla1|exact Hla2]]]].
       + apply (WInv_ext c U st2 (set_not_empty st2)); [reflexivity..|].
         eapply WInv_drop_off; [exact W|]. intros sb Gs. rewrite G in Gs. injection Gs as <-.
         cbn [s_lc s_b]. split; [reflexivity|].
